@@ -302,7 +302,32 @@ class Held(cache.Recursion, length=1):
                 index += 1
 
 
-RECS = dict(Fib=Fib, Count=Count, Tri=Tri, Held=Held)
+class Big(cache.Recursion, length=1):
+    '''finite; items larger than a pickle frame (64 KiB, written in several write() calls) that refer to one object more than once'''
+
+    def __init__(self, n):
+        self.n = n
+
+    def resume_index(self, history, index):
+        if HOOK is not None:
+            HOOK('history', ('Big', self.n, index, tuple(float(h[2]) for h in history)))
+        return self._gen(index)
+
+    def _gen(self, index):
+        while index < self.n:
+            _enter(f'Big/{self.n}/{index}')
+            try:
+                treelog.info('big item', index)
+                a = numpy.arange(9000, dtype=float) * (index + 1)
+                tag = 'item-%d' % index
+                value = (a, [tag, a, (tag, a[:3])], float(index))
+            finally:
+                _leave(f'Big/{self.n}/{index}')
+            yield value
+            index += 1
+
+
+RECS = dict(Fib=Fib, Count=Count, Tri=Tri, Held=Held, Big=Big)
 
 
 def model_sequence(name, args, m):
@@ -316,6 +341,11 @@ def model_sequence(name, args, m):
         n, scale = (list(args) + [1.0])[:2]
         for i in range(min(m, n)):
             out.append(numpy.array([i * scale, i + 0.5]))
+    elif name == 'Big':
+        for i in range(min(m, args[0])):
+            a = numpy.arange(9000, dtype=float) * (i + 1)
+            tag = 'item-%d' % i
+            out.append((a, [tag, a, (tag, a[:3])], float(i)))
     elif name == 'Held':
         for i in range(m):
             out.append(float(args[0]) + 1.5 * i)
